@@ -50,8 +50,16 @@ MANAGER_POOLS = {
 }
 
 
-def run_pool(name, tier, d, via=None):
-    profile, allow, nq, nt, off = (MANAGER_POOLS if via else POOLS)[name]
+ACTOR_POOLS = {
+ "actors-life": ("life", "", 96, 1500, 300000),
+ "actors-general": ("general", "", 96, 1500, 320000),
+ "actors-hand": ("hand", "", 48, 800, 340000),
+ "actors-fault": ("fault", "", 24, 400, 360000),
+}
+
+
+def run_pool(name, tier, d, via=None, actors=False):
+    profile, allow, nq, nt, off = (MANAGER_POOLS if via else ACTOR_POOLS if actors else POOLS)[name]
     n = nq if tier == "quick" else nt
     procs = 48 if n >= 96 else max(1, n // 2)
     if name == "kf-midhand-leave":
@@ -66,6 +74,8 @@ def run_pool(name, tier, d, via=None):
             cmd += ["--allow", allow]
         if via:
             cmd += ["--via", via]
+        if actors:
+            cmd += ["--actors"]
         jobs.append((cmd, out))
 
     def run(job):
@@ -270,6 +280,7 @@ MODELS = {
  "C12": {"quick": _LIFE_Q, "thorough": _LIFE_T},
  "C03": {"quick": _SM_Q, "thorough": _SM_T},
  "C05": {"quick": _SM_Q, "thorough": _SM_T},
+ "C20": {"quick": _LIFE_Q, "thorough": _LIFE_T},
  "C02": {"quick": _SM_Q, "thorough": _SM_T},
  "C06": {"quick": _SM_Q, "thorough": _SM_T},
 }
@@ -345,3 +356,37 @@ def check_c17(prop, tier, replay):
     ck.assumptions = ["the manager builds its own engine with the native backend, so backend-call clauses (spy lines) are not available in this mode",
                       "known findings of the engine itself are matched by their signatures exactly as in the direct pools"]
     return ck.finish({"explanation": "traces_validated_against_impl = scenarios driven through the Manager API next to bystander tables"})
+
+
+@register("C20")
+def check_c20(prop, tier, replay):
+    """Observers never see hidden cards; every actor gets its own copy.  The scenario pools are run with three actors
+    (non-system observer, system observer, second observer; attachment order varies) attached to every table update
+    through real TableEngineAdapters; TLC judges every view each actor received and the engine's table afterwards."""
+    ck = Check(prop, tier)
+    build_harness()
+    pool = ThreadPoolExecutor(max_workers=1)
+    fut = pool.submit(run_models, ck, "C20", tier)
+    d = scratch("act")
+    views = {}
+    for name in ACTOR_POOLS:
+        path, summ, crashed = run_pool(name, tier, d, actors=True)
+        tr = tlc_trace("TableTrace.tla", "TableTrace.cfg", path, timeout=3000, parts=14, by_trace=True)
+        ck.cov["trace_lines"] += tr["lines"]
+        ck.cov["traces_validated_against_impl"] += summ.get("scenarios", 0)
+        ck.cov.setdefault("pools", []).append({"pool": name, "scenarios": summ.get("scenarios", 0), "lines": tr["lines"], "crashed_workers": len(crashed)})
+        ck.route(["C20_"], tr, path, "vh table --actors, pool " + name)
+        with open(path) as f:
+            for l in f:
+                if '"ev":"actorview"' in l[:70]:
+                    dd = json.loads(l)
+                    h = dd["st"]["hand"]
+                    key = "%s/%s/%s" % (dd["a"]["kind"], dd["st"]["status"], h[0]["ev"] if h else "-")
+                    views[key] = views.get(key, 0) + 1
+                    if h and len(ck.cov["samples"]) < 3 and views[key] == 1 and dd["a"]["kind"] == "observer":
+                        ck.cov["samples"].append({"actor": dd["a"]["kind"], "status": dd["st"]["status"], "hand": {k: h[0][k] for k in ("ev", "deck", "burned")},
+                                                  "players": [[p["hole"], p["combo"], p["fold"]] for p in h[0]["p"]]})
+    ck.cov["views_by_actor_status_event"] = views
+    fut.result()
+    ck.assumptions = ["the views are those of real observerRunner actors behind real tableEngineAdapters; adapters of other kinds are not covered"]
+    return ck.finish({"explanation": "traces_validated_against_impl = scenarios with actors attached; every actor view is one judged line"})
